@@ -688,6 +688,8 @@ class Interp:
                 return [(st, ("namedc", d, b.value["v"]))]
             r = self.eval_const_body(b, targs, frame)
             if r is not None:
+                if isinstance(r, tuple) and r and r[0] == "tuple":
+                    r = ("tuple", tuple(("namedc", "%s.%d" % (d, i), x[1]) if is_c(x) else x for i, x in enumerate(r[1])))
                 return [(st, r)]
         return [(st, ("const", d))]
 
@@ -1305,7 +1307,7 @@ class Interp:
         for a in args:
             if isinstance(a, tuple) and a and a[0] == "mref":
                 old = self.load_ref(s, a)
-                self.store_ref(s, a, ("mutated", name, old, tuple(x for x in lv if x != old)))
+                self.store_ref(s, a, ("mutated", name, old, tuple(x for x in lv if x != old), (callee, targs)))
         rv = ("call", name, lv, (callee, targs))
         rt = self.ty(frame, e["ty"])
         if rt[0] == "array" and rt[1] == ("prim", "u8") and isinstance(rt[2], int):
